@@ -42,21 +42,21 @@ struct SIMULATOR_DECL http_proxy
 private:
 
 	void on_accept(boost::system::error_code const& ec);
-	void on_read_request(boost::system::error_code const& ec, size_t bytes_transferred);
+	void on_read_request(int session, boost::system::error_code const& ec, size_t bytes_transferred);
 
 	void forward_request(http_request const& req);
 	void open_forward_connection(const asio::ip::tcp::endpoint& target);
-	void on_connected(boost::system::error_code const& ec);
+	void on_connected(int session, boost::system::error_code const& ec);
 
-	void on_domain_lookup(boost::system::error_code const& ec
+	void on_domain_lookup(int session, boost::system::error_code const& ec
 		, const asio::ip::tcp::resolver::results_type ips);
 
 	void write_server_send_buffer();
-	void on_server_write(boost::system::error_code const& ec, size_t bytes_transferred);
+	void on_server_write(int session, boost::system::error_code const& ec, size_t bytes_transferred);
 
-	void on_server_receive(boost::system::error_code const& ec
+	void on_server_receive(int session, boost::system::error_code const& ec
 		, std::size_t bytes_transferred);
-	void on_server_forward(boost::system::error_code const& ec, size_t bytes_transferred);
+	void on_server_forward(int session, boost::system::error_code const& ec, size_t bytes_transferred);
 
 	void error(int code, char const* message);
 	void close_connection();
@@ -79,6 +79,10 @@ private:
 	// true from the moment the first request starts resolving/connecting to
 	// the origin until that attempt has succeeded or failed
 	bool m_connecting = false;
+
+	// incremented every time a client connection is torn down. Completion
+	// handlers carry the number of the session that started them
+	int m_session = 0;
 
 	// receive buffer for requests from the client. i.e. client -> proxy (us) -> server
 	char m_client_in_buffer[65536];
